@@ -37,6 +37,13 @@ public:
                 m_xliaison->setBuildWrapperNodes(true);
                 m_xliaison->setBuildMaps(true);
             }
+            else
+            {
+                // mapping mode: wrapper nodes are created on demand and carry no document-order index, so
+                // document order is derived from the tree structure (DOMServices::isNodeAfter, second branch)
+                m_xliaison->setBuildWrapperNodes(false);
+                m_xliaison->setBuildMaps(true);
+            }
             m_doc = m_xliaison->parseXMLStream(is);
         }
     }
